@@ -61,6 +61,10 @@ def marked_lines(block):
     return res
 
 
+def gutter_lines(block):
+    return [int(m.group(1)) for m in re.finditer(r'(?m)^\s*(\d+)\s\|', block)]
+
+
 def parse(result, labels, fn_lines, unit):
     """-> dict(status, functions, failures, ...).
     status: 'ok' | 'failed' (>=1 proof obligation failed) | 'undecided' (tool error, rlimit, timeout)."""
@@ -131,6 +135,11 @@ def parse(result, labels, fn_lines, unit):
             if 'failed this postcondition' in note or 'failed precondition' in note or 'failed this' in note:
                 clause_line = ln
         site_line = line
+        if fn_of(site_line) is None:
+            for ln in gutter_lines(b):
+                if fn_of(ln) is not None:
+                    site_line = ln
+                    break
         pending = dict(kind=msg, clause_line=clause_line, site_line=site_line,
                        label=labels.get(clause_line), function=fn_of(site_line) or fn_of(clause_line),
                        clause_fn=fn_of(clause_line), sub_labels=[], text=b[:3000])
